@@ -151,17 +151,23 @@ void Rpc::onRecvRequest(int id, const std::string &method, const Json &js_params
     RECORD_SCOPE();
     auto iter = method_services_.find(method);
     if (iter != method_services_.end() && iter->second) {
+        //! 用副本来调用：服务函数里可能替换、删除自己，或 cleanup()
+        ServiceCallback service_cb = iter->second;
         int errcode = 0;
         Json js_result;
         if (id != 0) {
             tobe_respond_.insert(id);
-            if (iter->second(id, js_params, errcode, js_result)) {
+            bool is_sync = service_cb(id, js_params, errcode, js_result);
+            if (proto_ == nullptr)  //! 服务函数里 cleanup() 了
+                return;
+
+            if (is_sync) {
                 respond(id, errcode, js_result);
             } else {
                 respond_timeout_.add(id);
             }
         } else {
-            iter->second(id, js_params, errcode, js_result);
+            service_cb(id, js_params, errcode, js_result);
         }
     } else {
         proto_->sendError(id, ErrorCode::kMethodNotFound);
